@@ -53,3 +53,26 @@ Lemma code_try_trigger fc fp ws we cnt lastf ts :
   gen_try_trigger fc fp ws we cnt lastf ts =
   if gen_can_trigger fc fp ws we cnt lastf ts then ((cnt + 1, ts), true) else ((cnt, lastf), false).
 Proof. unfold gen_try_trigger, gen_fire. destruct (gen_can_trigger fc fp ws we cnt lastf ts); reflexivity. Qed.
+
+(* ---------- the settings of an action: LocationAction.__get_int, fire_count, fire_period ---------- *)
+Lemma tie_get_int c k d : gen_get_int c k d = get_int (alookup k c) d.
+Proof.
+  unfold gen_get_int, get_int, cfg_get, py_int. destruct (alookup k c) as [[s|z]|]; [|reflexivity|reflexivity].
+  destruct (parse_int s); reflexivity.
+Qed.
+
+Lemma tie_settings c a b :
+  gen_fire_count c = fc (mk_lim (alookup [102;105;114;101;95;99;111;117;110;116] c) (alookup [102;105;114;101;95;112;101;114;105;111;100] c) a b) /\
+  gen_fire_period c = fp (mk_lim (alookup [102;105;114;101;95;99;111;117;110;116] c) (alookup [102;105;114;101;95;112;101;114;105;111;100] c) a b).
+Proof. unfold gen_fire_count, gen_fire_period, mk_lim. simpl. rewrite !tie_get_int. split; reflexivity. Qed.
+
+(* stated over the code: a setting that is absent or is not a decimal integer falls back to 1 fire / 1000 ms *)
+Lemma code_defaults c :
+  (alookup [102;105;114;101;95;99;111;117;110;116] c = None \/
+   (exists s, alookup [102;105;114;101;95;99;111;117;110;116] c = Some (AText s) /\ parse_int s = None) -> gen_fire_count c = 1) /\
+  (alookup [102;105;114;101;95;112;101;114;105;111;100] c = None \/
+   (exists s, alookup [102;105;114;101;95;112;101;114;105;111;100] c = Some (AText s) /\ parse_int s = None) -> gen_fire_period c = 1000).
+Proof.
+  unfold gen_fire_count, gen_fire_period. rewrite !tie_get_int. unfold get_int.
+  split; intros [E|(s & E & P)]; rewrite E; try rewrite P; reflexivity.
+Qed.
